@@ -839,7 +839,9 @@ def run_reread(ctx: Ctx, res: Result, tmp, n):
 
 
 # ===================================================================================== fill stream
-def gen_fill_table(rng, system, style="c", ints=False, redundant=True):
+def gen_fill_table(rng, system, style="c", ints=False, redundant=True, small=False):
+    """small: one independent coupling (a key with an index 4-6 and two different indices) is SMALL but not vanishing at every volume
+    (2e-4 … 9e-4 GPa: far above the drop tolerance 1e-8 the command documents) and printed with 6 decimals"""
     keys = list(INDEPENDENT[system])
     if redundant and system not in ("triclinic", "monoclinic", "orthorhombic") and rng.random() < 0.5:
         keys.append("22")          # c22 = c11 in every higher system: a consistent redundant column
@@ -855,6 +857,13 @@ def gen_fill_table(rng, system, style="c", ints=False, redundant=True):
             rng.uniform(60, 160) if j <= 3 else rng.uniform(-30, 30)
         base[k] = [round(b * (1 + 0.05 * iv), 3) for iv in range(nv)]
     base["22"] = base.get("22", base["11"])
+    small_key = None
+    if small and not ints:
+        cand = [k for k in INDEPENDENT[system] if k[0] != k[1] and int(k[1]) >= 4]
+        if cand:
+            small_key = cand[int(rng.integers(0, len(cand)))]
+            sg = 1.0 if rng.random() < 0.5 else -1.0
+            base[small_key] = [round(sg * (2e-4 + 7e-4 * (iv + 1) / (nv + 1)), 6) for iv in range(nv)]
     for o in order:
         k = keys[o]
         st = style if isinstance(style, str) else str(rng.choice(style))
@@ -868,7 +877,7 @@ def gen_fill_table(rng, system, style="c", ints=False, redundant=True):
         if ints:
             lines.append("%.5f " % vols[iv] + " ".join("%d" % round(c[iv]) for c in cols))
         else:
-            lines.append("%.8f   " % vols[iv] + "  ".join("%.3f" % c[iv] for c in cols))
+            lines.append("%.8f   " % vols[iv] + "  ".join(("%.6f" if keys[order[ci]] == small_key else "%.3f") % c[iv] for ci, c in enumerate(cols)))
     tail = []
     if lattice:
         tail.append(" lattice_a lattice_b lattice_c ")
@@ -877,7 +886,8 @@ def gen_fill_table(rng, system, style="c", ints=False, redundant=True):
     elif rng.random() < 0.5:
         tail += ["", "free text after a blank line"]
     text = "\n".join(lines + tail) + "\n"
-    given = {names[c]: [float("%d" % round(x)) if ints else float("%.3f" % x) for x in cols[c]] for c in range(len(names))}
+    given = {names[c]: [float("%d" % round(x)) if ints else float(("%.6f" if keys[order[c]] == small_key else "%.3f") % x) for x in cols[c]]
+             for c in range(len(names))}
     return {"text": text, "system": system, "nv": nv, "vols": [float(("%.5f" if ints else "%.8f") % v) for v in vols],
             "names": names, "keys": [keys[o] for o in order], "given": given,
             "tail": "\n".join(tail) + ("\n" if tail else ""), "head": "\n".join(lines[:2]) + "\n"}
@@ -1084,7 +1094,7 @@ def run_fill(ctx: Ctx, res: Result, tmp, per_system):
     for rep in range(per_system):
         for system in SYSTEMS:
             if ctx.time_left() < 30: res.notes.append("fill stream cut short by the time budget"); return
-            case = gen_fill_table(rng, system, style=["c", "C"] if rep % 2 else "c")
+            case = gen_fill_table(rng, system, style=["c", "C"] if rep % 2 else "c", small=(rep % 2 == 0))
             out, fails = fill_case_check(ctx, res, case, tmp, dist)
             if first and not fails:
                 first = False
